@@ -41,16 +41,17 @@ PROFILES = {
 RUNNER_FLAGS: dict = {}
 
 LAYERS = {
-    'C01': ({'outcome', 'views.keys'}, {'addLoose', 'addPacked', 'packAll', 'repack', 'loosen', 'reopen', 'clean'}),
-    'C02': ({'outcome', 'views.keys', 'views.list', 'views.count'}, None),
+    'C01': ({'outcome', 'views.get', 'views.metabasic'}, {'addLoose', 'addPacked', 'packAll', 'repack', 'repackOne', 'loosen', 'reopen', 'clean'}),
+    'C02': ({'outcome', 'views.has', 'views.get', 'views.metabasic', 'views.list', 'views.countobj'}, None),
     'C03': ({'state.rows', 'state.packs', 'state.loose'}, None),
-    'C09': ({'state.rows', 'state.packs', 'state.loose', 'views.count', 'outcome'}, {'damage', 'addLoose', 'addPacked', 'packAll', 'import', 'clean', 'loosen', 'reopen'}),
-    'C10': ({'views.keys', 'views.totals', 'state.rows'}, {'packAll', 'repack', 'repackOne', 'addPacked', 'addLoose'}),
-    'C11': ({'outcome', 'views.keys', 'views.list', 'state.packs', 'state.rows'}, {'delete', 'repack', 'repackOne'}),
+    'C09': ({'state.rowkeys', 'state.packs', 'state.loose', 'views.count', 'outcome'},
+            {'damage', 'addLoose', 'addPacked', 'packAll', 'import', 'clean', 'loosen', 'reopen'}),
+    'C10': ({'verdict', 'views.meta', 'views.totals', 'state.rows', 'views.get'}, {'packAll', 'repack', 'repackOne', 'addPacked', 'addLoose'}),
+    'C11': ({'outcome', 'views.has', 'views.get', 'views.list', 'state.packs', 'state.rows'}, {'delete', 'repack', 'repackOne'}),
     'C12': ({'views.validate'}, None),
     'C13': ({'state.packs', 'state.stray'}, {'addLoose', 'addPacked', 'packAll', 'clean', 'import', 'reopen', 'loosen'}),
-    'C14': ({'outcome', 'state.rows', 'state.packs', 'state.loose', 'views.keys'}, {'import'}),
-    'C16': ({'outcome', 'views.keys', 'views.list', 'views.count', 'state.loose', 'state.rows'}, None),
+    'C14': ({'outcome', 'state.rows', 'state.packs', 'state.loose', 'views.get', 'views.has'}, {'import'}),
+    'C16': ({'outcome', 'views.has', 'views.get', 'views.metabasic', 'views.list', 'views.countobj', 'state.loose', 'state.rows'}, None),
 }
 
 
@@ -123,7 +124,10 @@ def _worker(args):
 
 def relevant(prop: str, res: store.CaseResult):
     layers, ops = LAYERS[prop]
-    diffs = [d for d in res.diffs if d[1] in layers and (ops is None or d[4] in ops)]
+    # Only the step at which model and implementation FIRST disagree (in any layer) is informative: everything
+    # after it is a knock-on effect of that divergence and says nothing about this property.
+    first = min((d[0] for d in res.diffs), default=None)
+    diffs = [d for d in res.diffs if d[0] == first and d[1] in layers and (ops is None or d[4] in ops)]
     fails = [f for f in res.failures if f[1] == prop]
     return diffs, fails
 
